@@ -37,6 +37,7 @@ fn real_main() {
     let desc_path = a.get("desc").expect("--desc");
     let out = a.get("out").expect("--out");
     let seed: u64 = a.num("seed", 1);
+    let storm_ms: u64 = a.num("storm-ms", 30);
     let desc: DescFile = serde_json::from_reader(std::io::BufReader::new(File::open(desc_path).expect("desc file"))).expect("desc json");
     if desc.hash != GEN_HASH {
         eprintln!("descriptor {} does not belong to this binary (built from {})", desc.hash, GEN_HASH);
@@ -64,6 +65,13 @@ fn real_main() {
         // last resort: the harness must not die from the behaviour of the code under test
         if std::panic::catch_unwind(std::panic::AssertUnwindSafe(|| zoo::run_case(ops, d, &mut rng_of(ops.id), &mut ev, &mut st, 1))).is_err() {
             ev.push(json!({"ev":"died","case":ops.id}));
+        }
+        if d.storm {
+            // multi-threaded read-only storm on this (read-only) type, appended to its block
+            let slots: Vec<&'static Slot> = d.conc.iter().filter_map(|n| zoo::slot_by_name(n)).collect();
+            if slots.len() == d.nres {
+                zoo::storm(ops, d, &slots, storm_ms, &mut ev, &mut st);
+            }
         }
         if samples.len() < 2 && (ops.id as u64 + seed) % 97 == 0 {
             samples.push(json!({"ty": d.ty, "origin": d.origin, "events": ev.iter().skip(1).take(4).collect::<Vec<_>>()}));
@@ -97,7 +105,7 @@ fn real_main() {
     w.flush().unwrap();
     println!(
         "{}",
-        json!({"hash": GEN_HASH, "cases": st.cases, "events": st.events, "fetch_runs": st.fetch_runs, "setup_runs": st.setup_runs, "exec_runs": st.exec_runs, "setup_leaked": st.setup_leaked, "setup_panics": st.setup_panics, "fetch_normal": st.fetch_ctx[0], "fetch_dropped_by_unwinding": st.fetch_ctx[1], "fetch_in_drop_while_unwinding": st.fetch_ctx[2], "second_pass": st.second_pass, "twin_blocks": st.twin_blocks,
+        json!({"hash": GEN_HASH, "cases": st.cases, "events": st.events, "fetch_runs": st.fetch_runs, "setup_runs": st.setup_runs, "exec_runs": st.exec_runs, "storm_blocks": st.storm_blocks, "storm_ops": st.storm_ops, "storm_fail": st.storm_fail, "setup_leaked": st.setup_leaked, "setup_panics": st.setup_panics, "fetch_normal": st.fetch_ctx[0], "fetch_dropped_by_unwinding": st.fetch_ctx[1], "fetch_in_drop_while_unwinding": st.fetch_ctx[2], "second_pass": st.second_pass, "twin_blocks": st.twin_blocks,
                "fetch_ok": st.fetch_ok, "fetch_missing": st.fetch_missing, "fetch_borrow": st.fetch_borrow,
                "fetch_other": st.fetch_other, "with_held": st.with_held, "model_runs": st.model_runs,
                "model_matched": st.model_matched, "model_mismatch": st.model_mismatch,
